@@ -509,8 +509,19 @@ def judge_c09(spec, PS, PT, ms, mt):
         if la["colour"] != lb["colour"]:
             probs.append({"rule": "link-colour", "uid": uid, "svg": la["colour"], "tikz": lb["colour"]})
             break
-        ra = [tuple(la["start_raw"])] + [(s["type"],) + tuple(s["raw"]) for s in la["segments"]]
-        rb = [tuple(lb["start_raw"])] + [(s["type"],) + tuple(s["raw"]) for s in lb["segments"]]
+        def with_from(link):
+            # every piece as (type, start point, printed points): in an SVG path the start of a piece is the
+            # end of the previous one; TikZ prints the start of every \\draw explicitly
+            out = []
+            cur = tuple(link["start_raw"])
+            for sg in link["segments"]:
+                frm = tuple(sg["from_raw"]) if "from_raw" in sg else cur
+                out.append((sg["type"], frm) + tuple(sg["raw"]))
+                cur = tuple(sg["raw"][-2:])
+            return out
+
+        ra = [tuple(la["start_raw"])] + with_from(la)
+        rb = [tuple(lb["start_raw"])] + with_from(lb)
         if ra != rb:
             probs.append({"rule": "link-curve", "uid": uid, "svg": ra[:3], "tikz": rb[:3]})
             break
